@@ -64,6 +64,15 @@ fn cases_for(open: &Node, coins: &[(CoinID, u128, u64)], difficulties: &[(u32, b
         for (d, tip910) in difficulties {
             let proof = if *tip910 { melpow::Proof::generate(&pz, *d as usize, Tip910Hash) } else { melpow::Proof::generate(&pz, *d as usize, LegacyHash) };
             let pb = proof.to_bytes();
+            // the reference verifier must agree with the generator on honest proofs (otherwise the reference is wrong: no verdict)
+            {
+                use crate::refpow::*;
+                let hf: &dyn Fn(&[u8], &[u8]) -> [u8; 32] = if *tip910 { &hash_tip910 } else { &hash_legacy };
+                if ref_pow_verify(&pb, &pz.0, *d as usize, hf) != PowVerdict::Valid {
+                    eprintln!("MACHINERY-FAILURE: the reference MelPoW verifier refuses an honestly generated proof (d={} tip910={})", d, tip910);
+                    std::process::exit(2);
+                }
+            }
             let speed = (if *tip910 { 100u128 } else { 1 }) * (1u128 << d) / age as u128;
             let reward = ref_reward(speed, prev_speed, *d, *tip910);
             let max_erg = ref_dosc_to_erg(height, reward).unwrap_or(u128::MAX);
@@ -111,6 +120,21 @@ fn cases_for(open: &Node, coins: &[(CoinID, u128, u64)], difficulties: &[(u32, b
                 let mut flipped = pb.clone();
                 flipped[u * 40 + 20] ^= 1;
                 out.push(Case { label: format!("{} unit {} of {} label bit flipped", base, u, units), tx: mint_tx(*coin, *value, *d, &flipped, 0, false), valid: false });
+            }
+            // a "proof" made without the work: the challenged leaves hashed from filler labels (about 200 hashes at any difficulty),
+            // at the honest difficulty and at 40 (2^40 steps of work claimed), with and without ERG claimed
+            {
+                use crate::refpow::*;
+                let hf: &dyn Fn(&[u8], &[u8]) -> [u8; 32] = if *tip910 { &hash_tip910 } else { &hash_legacy };
+                for fd in [*d, 40u32] {
+                    let forged = forged_proof(&pz.0, fd as usize, hf);
+                    let fspeed = (if *tip910 { 100u128 } else { 1 }) * (1u128 << fd) / age as u128;
+                    let fmax = ref_dosc_to_erg(height, ref_reward(fspeed, prev_speed, fd, *tip910)).unwrap_or(u128::MAX).min(1 << 120);
+                    out.push(Case { label: format!("{} forged proof (no sequential work) claiming d={} erg=0", base, fd), tx: mint_tx(*coin, *value, fd, &forged, 0, false), valid: false });
+                    if fmax > 0 {
+                        out.push(Case { label: format!("{} forged proof (no sequential work) claiming d={} erg={}", base, fd, fmax), tx: mint_tx(*coin, *value, fd, &forged, fmax, false), valid: false });
+                    }
+                }
             }
             // puzzle seed: proof made for another coin / for another height's header
             if let Some((other, ov, _)) = coins.iter().find(|c| c.0 != *coin) {
